@@ -1,6 +1,6 @@
 (** C06 -- Lists and records are shared by reference; indexed write then read agree. *)
 From Pakhi Require Import Base Float64 Syntax Tables Lexer Interp.
-From Pakhi.Proofs Require Import Assoc Scope ListOps HeapRW Unfold PathRW WF WFOps Skeleton.
+From Pakhi.Proofs Require Import Assoc Scope ListOps HeapRW Unfold PathRW WF WFOps SkelDefs Skeleton.
 Local Open Scope nat_scope.
 
 (* Reference semantics: a value of list or record type *is* an address (VList a / VRec a).  Declaring another
